@@ -7,7 +7,7 @@ Nothing is sampled: every row is recomputed.
 """
 import glob, json, math, os, sys
 from decimal import (Context, Decimal, ROUND_HALF_EVEN, ROUND_FLOOR, ROUND_CEILING, Overflow, Underflow, Subnormal,
-                     DivisionByZero, InvalidOperation, Inexact, Clamped, localcontext)
+                     DivisionByZero, InvalidOperation, Inexact, Rounded, Clamped, localcontext)
 from fractions import Fraction
 from multiprocessing import Pool
 
@@ -123,6 +123,14 @@ def quotient_not_representable(a, b):
         return True
     return math.floor(q) != math.floor(Fraction(q34)) or abs(math.floor(q)) >= 10**34
 
+def product_not_representable(a, b):
+    """True when b * floor(a/b) - the product the implementation subtracts from a - does not fit into 34 digits."""
+    q = math.floor(Fraction(a) / Fraction(b))
+    p = BIG.multiply(b, Decimal(q))
+    c = ctx128()
+    c.plus(p)
+    return bool(c.flags[Inexact]) or bool(c.flags[Rounded])
+
 def magnitude_class(x):
     if not isinstance(x, Decimal):
         return str(x)
@@ -226,6 +234,9 @@ def check_shard(path):
             if not within(obs, exp, ulps):
                 if op in ("rem", "modulo") and quotient_not_representable(a, b):
                     v("modulo:quotient-needs-more-than-34-digits:%s" % level, "%s `%s` of %s, %s gives %s, expected %s: the quotient a/b cannot be floored from its 34-digit rounding" % (level, op, ta, tb, obs_t, exp), case)
+                    continue
+                if op in ("rem", "modulo") and product_not_representable(a, b):
+                    v("modulo:product-needs-more-than-34-digits:%s" % level, "%s `%s` of %s, %s gives %s, expected %s: b * floor(a/b) does not fit into 34 digits" % (level, op, ta, tb, obs_t, exp), case)
                     continue
                 v("wrong-value:%s:%s:%s" % (level, op, magnitude_class(exp)), "%s `%s` of %s, %s gives %s, expected %s%s" % (level, op, ta, tb, obs_t, exp, (" (within %d ulp)" % ulps) if ulps else ""), case)
     return viol, stats, per_op, len(results), samples
